@@ -39,6 +39,17 @@ func run(c *harness.Ctx) {
 			}
 		})
 	}
+	c.Case("first-touch-storm", func() {
+		epochs := c.N(2400, 80000)
+		fs, reqs := attcommon.Storm(c.Rand("storm"), epochs)
+		for _, f := range fs {
+			c.Violate(f.Key, f.What, "first-touch-storm", map[string]any{"epochs": epochs})
+		}
+		c.Count("storm_epochs", int64(epochs))
+		c.Count("storm_sign_requests", int64(reqs))
+		c.Eval(epochs)
+		c.Distinct("storm")
+	})
 }
 
 func main() {
